@@ -4,6 +4,7 @@ package main
 
 import (
 	"bufio"
+	"os"
 	"fmt"
 	"io"
 	"os/exec"
@@ -201,7 +202,18 @@ func (s *Solver) assertStr(sb *strings.Builder, t *Term) {
 // Check decides satisfiability of pc AND extra. On Sat it returns values for vars.
 func (s *Solver) Check(pc []*Term, extra *Term, vars []*Term) (SatResult, Model, error) {
 	start := time.Now()
-	defer func() { s.SolveTime += time.Since(start); s.Queries++ }()
+	defer func() {
+		d := time.Since(start)
+		s.SolveTime += d
+		s.Queries++
+		if slowQ && d > 2*time.Second {
+			sz := 0
+			if extra != nil {
+				sz = extra.size
+			}
+			fmt.Fprintf(os.Stderr, "[slow query] %s %.1fs pc=%d extra.size=%d vars=%d hasFP=%v\n", s.kind, d.Seconds(), len(pc), sz, len(vars), extra != nil && extra.hasFP)
+		}
+	}()
 	if s.ts.next-s.defs > 400000 {
 		// keep the solver's symbol table bounded
 		if err := s.restart(nextSess()); err != nil {
@@ -356,3 +368,5 @@ func tokenize(s string) []string {
 	flush()
 	return toks
 }
+
+var slowQ = os.Getenv("GOSYMEX_SLOWQ") != ""
